@@ -5,7 +5,7 @@ use serde::{Deserialize, Serialize};
 use std::path::PathBuf;
 use std::sync::atomic::{AtomicU64, Ordering};
 
-pub trait Subject: Allocator + Clone + 'static {
+pub trait Subject: Allocator + Clone + std::fmt::Debug + 'static {
   const FLAVOUR: &'static str;
   const SYNC: bool;
   fn snap(&self, max_nodes: usize) -> Snapshot;
